@@ -17,6 +17,7 @@ import (
 
 	"github.com/cube2222/octosql/config"
 	"github.com/cube2222/octosql/plugins/repository"
+	"github.com/cube2222/octosql/plugins/verifcrash"
 )
 
 type PluginManager struct {
@@ -186,13 +187,16 @@ func (m *PluginManager) Install(ctx context.Context, name string, constraint *se
 
 	newPluginDir := filepath.Join(getPluginDir(), repoSlug, fmt.Sprintf("octosql-plugin-%s", name), version.Number.String())
 
+	verifcrash.Point("install/before-removeall")
 	if err := os.RemoveAll(newPluginDir); err != nil {
 		return fmt.Errorf("couldn't remove old plugin directory: %w", err)
 	}
+	verifcrash.Point("install/after-removeall")
 
 	if err := os.MkdirAll(newPluginDir, os.ModePerm); err != nil {
 		return fmt.Errorf("couldn't create plugins directory: %w", err)
 	}
+	verifcrash.Point("install/after-mkdirall")
 	archiveFilePath := filepath.Join(newPluginDir, "archive.tar.gz")
 
 	// Anonymous function to take care of defers before we move forward.
@@ -212,8 +216,10 @@ func (m *PluginManager) Install(ctx context.Context, name string, constraint *se
 		if err != nil {
 			return fmt.Errorf("couldn't create plugin archive file: %w", err)
 		}
+		verifcrash.Point("install/after-archive-create")
 		defer f.Close()
 
+		res.Body = verifcrash.TornCopy("install/archive-copy", archiveFilePath, res.Body)
 		if _, err := io.Copy(f, res.Body); err != nil {
 			return fmt.Errorf("couldn't download plugin archive: %w", err)
 		}
@@ -223,17 +229,22 @@ func (m *PluginManager) Install(ctx context.Context, name string, constraint *se
 		return err
 	}
 
+	verifcrash.Point("install/after-archive-download")
 	if err := archiver.NewTarGz().Unarchive(archiveFilePath, newPluginDir); err != nil {
 		return fmt.Errorf("couldn't unarchive plugin archive: %w", err)
 	}
+	verifcrash.TornExtracted("install/unarchive", newPluginDir, "archive.tar.gz")
+	verifcrash.Point("install/after-unarchive")
 
 	if err := os.Remove(archiveFilePath); err != nil {
 		return fmt.Errorf("couldn't remove plugin archive: %w", err)
 	}
+	verifcrash.Point("install/after-archive-remove")
 
 	if err := registerFileExtensions(plugin.Name, plugin.FileExtensions); err != nil {
 		return fmt.Errorf("couldn't register file extensions: %w", err)
 	}
+	verifcrash.Point("install/done")
 
 	return nil
 }
